@@ -115,7 +115,7 @@ def main():
         "reads of the old data file are not part of the model (they do not change the filesystem); their failures are judged by the property text only",
     ]
     chk.assumptions += [
-        "single-fault schedules; errno in {ENOSPC, EIO, EACCES, EMFILE}",
+        "single-fault schedules; errno in {ENOSPC, EIO, EACCES, EMFILE}; plus a short write (half of the bytes transferred) at every write call",
         "GD_VERIF_BUFFER_SIZE=64 (hook H1) so that every conversion needs several read/write calls",
         "GD_E_UNCLEAN_DB outcomes are exempt from the no-debris clause, as the property says",
     ]
@@ -395,7 +395,10 @@ def main():
     def fault_job(a):
         sc, k, en = a
         w = sc.work("f%d_%s" % (k, en))
-        rc, out = shimlib.run_shim(shim, w, [exe, "run", os.path.join(w, "df")] + sc.ops, fail=(k, ERRNO[en]), timeout=20)
+        if en == "SHORT":
+            rc, out = shimlib.run_shim(shim, w, [exe, "run", os.path.join(w, "df")] + sc.ops, short=k, timeout=20)
+        else:
+            rc, out = shimlib.run_shim(shim, w, [exe, "run", os.path.join(w, "df")] + sc.ops, fail=(k, ERRNO[en]), timeout=20)
         h = parse_run(out)
         tr = shimlib.tree(os.path.join(w, "df"))
         v = view(w)
@@ -403,6 +406,8 @@ def main():
         shutil.rmtree(w, ignore_errors=True)
         return sc, k, en, rc, h, tr, v, outside, out
     fjobs = [(sc, k, en) for sc in good for k in range(sc.n) for en in errnos]
+    # short writes (the call succeeds but transfers only part of the bytes) on every write call
+    fjobs += [(sc, k, "SHORT") for sc in good for k in range(sc.n) if sc.calls[k].name in ("write", "pwrite") and sc.calls[k].arg >= 2]
     for sc, k, en, rc, h, tr, v, outside, raw in pool.map(fault_job, fjobs):
         counts["fault_runs"] += 1
         chk.cov["evaluations"] += 1
